@@ -3,6 +3,7 @@
 package rclient
 
 import (
+	"errors"
 	"net"
 	"runtime"
 	"time"
@@ -27,6 +28,9 @@ func Dial(addr string) (*Conn, error) {
 
 // WriteFrags writes b in the given fragment sizes (the rest in one piece), yielding between fragments.
 func (c *Conn) WriteFrags(b []byte, frags []int, yields int) error {
+	if c == nil {
+		return errNoConn
+	}
 	for _, n := range frags {
 		if len(b) == 0 {
 			break
@@ -54,12 +58,18 @@ func (c *Conn) WriteFrags(b []byte, frags []int, yields int) error {
 
 // Read reads one reply with a deadline.
 func (c *Conn) Read(timeout time.Duration) (resp.Value, error) {
+	if c == nil {
+		return resp.Value{}, errNoConn
+	}
 	c.C.SetReadDeadline(time.Now().Add(timeout))
 	return c.Rd.Read()
 }
 
 // Do sends one command and reads its reply.
 func (c *Conn) Do(timeout time.Duration, args ...[]byte) (resp.Value, error) {
+	if c == nil {
+		return resp.Value{}, errNoConn
+	}
 	if _, err := c.C.Write(resp.Cmd(args...)); err != nil {
 		return resp.Value{}, err
 	}
@@ -76,7 +86,13 @@ func (c *Conn) DoS(timeout time.Duration, args ...string) (resp.Value, error) {
 }
 
 // Close closes the connection.
-func (c *Conn) Close() { c.C.Close() }
+func (c *Conn) Close() {
+	if c != nil {
+		c.C.Close()
+	}
+}
+
+var errNoConn = errors.New("no connection (dial failed)")
 
 // IsTimeout reports whether err is a deadline error.
 func IsTimeout(err error) bool {
